@@ -215,7 +215,7 @@ def r3(idx, rep):
     allowed = {"CsvPath._consider_line", "Qualified.line_matches"}
     for c in callers:
         f = c["fi"]
-        rep.check(f.qual in allowed, "R3", f"{f.file}::{f.qual} calls raise_match_count_if", "the match count may only be raised by the line driver and by the onmatch look-ahead", K.where(f, c["call"]))
+        rep.check(K.owner_of(idx, f, allowed) is not None, "R3", f"{f.file}::{f.qual} calls raise_match_count_if", "the match count may only be raised by the line driver and by the onmatch look-ahead", K.where(f, c["call"]))
     rep.floor("R3", 3, "raise_match_count_if sites")
     # the conditions under which they call it are tabulated in C13.R2 (vote is True) and C14.R3 (all expressions matched)
     # the count of line n+1 must not depend on a control flag line n left behind: the matcher table's verdict and skip-consumed aspects
@@ -375,7 +375,7 @@ def r5(idx, rep):
                         tgt = t
             if tgt is None:
                 continue
-            okw = fi.qual in allowed or fi.cls in listed
+            okw = K.owner_of(idx, fi, allowed) is not None or fi.cls in listed
             rep.check(okw, "R5", f"{fi.file}::{fi.qual} writes csvpath.variables", f"`{unparse(n)}`: variables may be written only through set_variable/get_variable", K.where(fi, n))
     matcher_forwards(idx, rep, "R5")
     seen = []
